@@ -581,6 +581,10 @@ func (en *Env) evalCall(x ECall) Term {
 		a := args()
 		c.ss.NeedBox(SBool)
 		return Term{app("unbox!Bool", a[0].S), SBool, tBool}
+	case "asint": // the int held by an interface value (meaningful when typeis(x, "int"))
+		a := args()
+		c.ss.NeedBox(SInt)
+		return Term{app("unbox!Int", a[0].S), SInt, tInt}
 	case "typeis":
 		// typeis(x, "pkg.T")
 		a := en.eval(x.Args[0])
